@@ -112,11 +112,14 @@ PROPS = {
     "C07": dict(
         level="model_checking", deadline_thorough=1200,
         technique="explicit-state BFS over histories x exhaustive enumeration of cursor call sequences compared with a sorted-map reference cursor",
-        rule="for every reached state: forward+backward scans, held iterators re-walked, all single cursor calls; for every new layout signature all call sequences up to cursor-len over {first,last,seek,seek_ge,seek_gt,seek_le,seek_lt x 9 targets,next,prev}",
+        rule="for every reached state: forward+backward scans, held iterators re-walked, all single cursor calls; for every new layout signature all call sequences up to cursor-len (3; thorough stage hist-len4: 4 on four prepared multi-level layouts) over {first,last,seek,seek_ge,seek_gt,seek_le,seek_lt x 9 targets,next,prev}",
         assumptions=E2_ASSUME + ["full-length cursor walks run on the first cursor-cap distinct layout signatures per plan item, single calls everywhere"],
         stages=[dict(name="hist", driver="hist", flavour="asan", args=["--alphabet", "iter", "--oracle", "iter,cursor"],
                      quick=["--plan", c07_plan("quick"), "--cursor-len", "3", "--cursor-cap", "6"],
-                     thorough=["--plan", c07_plan("thorough"), "--cursor-len", "4", "--cursor-cap", "2"])],
+                     thorough=["--plan", c07_plan("thorough"), "--cursor-len", "3", "--cursor-cap", "8"]),
+                dict(name="hist-len4", driver="hist", flavour="asan", args=["--alphabet", "iter", "--oracle", "iter,cursor"], tiers=["thorough"],
+                     thorough=["--plan", plan(["B1@1^" + L_DEEP, "B1@1^" + L_TOMB + " F", NOCASE + "@1^P0.1 F P1.1 F P3.1 P4.1", "B1,cmp=1@1^" + L_DEEP]),
+                               "--cursor-len", "4", "--cursor-cap", "1"])],
     ),
     "C13": dict(
         level="model_checking",
